@@ -57,8 +57,8 @@ def member(rng, depth):
     if depth > 0 and r < 0.75:
         ks = rng.sample(['k1', 'k2', 'zz', 'a', 'A', 'é', 'q"'], rng.randint(0, 3))
         es = [(S(k), member(rng, depth - 1)) for k in ks]
-        if rng.random() < 0.15:
-            es.append((rng.choice([I(1), B(True), N]), member(rng, 0)))
+        if rng.random() < 0.25:
+            es.append((rng.choice([I(1), B(True), N] + ([('f', rng.choice(FLOATS))] * 3 if FLOATS else [])), member(rng, 0)))
         return ('m', es)
     return V.scalar(rng)
 
